@@ -155,6 +155,8 @@ def render_flow(t):
         text, q = t[1], t[2]
         if q == "'" and not re.search(r'[\x00-\x1f\x7f-\x9f\ud800-\udfff﻿  ]', text):
             return pre + sq(text)
+        if text == '<<' and not q:
+            return pre + '<<'       # plain: the YAML merge key
         if q or not plain_safe(text):
             return pre + dq(text)
         return pre + text
